@@ -9,7 +9,7 @@ ORD = {9: "ninth", 10: "tenth", 11: "eleventh", 12: "twelfth"}.get(N, f"{N}th")
 props = {json.loads(l)['id']: json.loads(l) for l in open('/verif/properties.jsonl')}
 earlier = {}
 for line in open('/verif/DESIGN.md'):
-    m = re.match(r"\| (C\d\d)[a-z]? \| (.*?) \| (caught|\*\*not|first run|\*\*discarded)", line)
+    m = re.match(r"\| (C\d\d)[a-z]? \| (.*?) \| (caught|\*\*not|first run|\*\*discarded|PENDING)", line)
     if m:
         earlier.setdefault(m.group(1), []).append(m.group(2))
 for pid, p in props.items():
